@@ -30,7 +30,8 @@ VARIABLES ph,     \* "reg" | "saved" | "loaded"
 vars == <<ph, objs, idmap, regs, file, rest, got>>
 
 Den == 4
-Mk(kind, mm, nn, bh, bw, rep) == [kind |-> kind, m |-> mm, n |-> nn, bh |-> bh, bw |-> bw, rep |-> rep]
+Mk(kind, mm, nn, bh, bw, rep) == [kind |-> kind, m |-> mm, n |-> nn, bh |-> bh, bw |-> bw, rep |-> rep, alloc |-> FALSE]
+MkAlloc(kind, mm, nn, bh, bw, rep) == [kind |-> kind, m |-> mm, n |-> nn, bh |-> bh, bw |-> bw, rep |-> rep, alloc |-> TRUE]
 D23 == << <<3, -6, 7>>, <<-8, 11, -10>> >>
 \* the palette: different kinds; an empty vector, a matrix with an empty row, a matrix without entries
 Palette == <<
@@ -39,12 +40,13 @@ Palette == <<
   Mk("dv", 0, 1, 1, 1, [va |-> <<>>]),                                          \* length 0
   Mk("sv", 4, 1, 1, 1, [idx |-> <<1, 3>>, va |-> <<5, -2>>]),
   Mk("dvb", 2, 1, 2, 1, [va |-> <<1, 2, 3, 4>>]),
-  Mk("csr", 2, 2, 1, 1, CSROf(2, 2, D23, {})) >>                                \* no entries, no arrays
+  Mk("csr", 2, 2, 1, 1, CSROf(2, 2, D23, {})),                                  \* no entries, no arrays
+  MkAlloc("csr", 2, 3, 1, 1, CSROf(2, 3, D23, {})) >>                           \* no entries, allocated arrays of length 0
 \* identifiers that are prefixes of each other, in lexicographic order
-IdOrder == <<"a", "ab", "abc", "b", "ba", "c">>
-IdMaps == {[o \in 1..6 |-> IdOrder[o]], [o \in 1..6 |-> IdOrder[7 - o]], [o \in 1..6 |-> IdOrder[((o + 1) % 6) + 1]]}
+IdOrder == <<"a", "ab", "abc", "b", "ba", "c", "ca">>
+IdMaps == {[o \in 1..7 |-> IdOrder[o]], [o \in 1..7 |-> IdOrder[8 - o]], [o \in 1..7 |-> IdOrder[((o + 1) % 7) + 1]]}
 Rank(id) == CHOOSE r \in 1..Len(IdOrder) : IdOrder[r] = id
-IdLen(id) == CASE id \in {"a", "b", "c"} -> 1 [] id \in {"ab", "ba"} -> 2 [] id = "abc" -> 3
+IdLen(id) == CASE id \in {"a", "b", "c"} -> 1 [] id \in {"ab", "ba", "ca"} -> 2 [] id = "abc" -> 3
 
 BinOf(o) == BinFile(Arrays(Palette[o]), 13, CDT, CIT, CDT, CIT)          \* FileMode::fm_binary = 13
 SeqToSet(s) == {s[i] : i \in 1..Len(s)}
